@@ -61,6 +61,19 @@ def generate(seed, tier):
         weak = "" if ascii_names(m) else " # weak"
         lines.append("msg hostile %s # spec=C08 robust%s" % (hx(m), weak))
         g.count("hostile_parse")
+    # the real per-connection TCP loop on streams that stop decoding: truncated messages, garbage after a message,
+    # a lone start line, an absurd Content-Length, a plain end of stream: the connection must be closed
+    for _ in range(150 if tier == "quick" else 5000):
+        v = g.pick(VALID)
+        k = g.rint(0, 5)
+        if k == 0: stream = v[:g.rint(1, len(v) - 1)]
+        elif k == 1: stream = v + g.rbytes(1, 40)
+        elif k == 2: stream = v + v[:g.rint(1, len(v) - 1)]
+        elif k == 3: stream = v.split(b"\n")[0] + b"\n"
+        elif k == 4: stream = v.replace(b"Content-Length: 4", b"Content-Length: 4000000000").replace(b"Content-Length: 0", b"Content-Length: 99999")
+        else: stream = v + mutate(g, g.pick(VALID))
+        lines.append("frame run %s %s # spec=C08 closed%s" % (hx(stream), g.pick(["-", "1,1,1,1,1,1,1", "7", "100"]), "" if ascii_names(stream) else " # weak"))
+        g.count("hostile_tcp_streams")
     # through the pipeline
     ncase = 60 if tier == "quick" else 2500
     for c in range(ncase):
